@@ -206,7 +206,9 @@ Definition c16_pg (name_in : option string) (east north : list D) (vals : list (
                end in
   let agree := table_ok && affine_ok && coords_model && name_ok && dims_ok && rect && nan_agree in
   let holds := name_ok && shape_ok && coords_spec && nan_holds && repro in
-  mk_verdict_tie tie agree holds.
+  (* a requested spacing within 2^-30 of a rounding tie: the float quotient may round the
+     other way, the node count is then not determined; only name and rectangularity are kept *)
+  if tie then (if name_ok && rect then Vskip else Vboth) else mk_verdict agree holds.
 
 (** ** finite strictly inside the hull, on its own (used for antialias=True with
     linear / cubic, where the blocked mean shrinks the interpolator's own hull) *)
